@@ -1,0 +1,84 @@
+//! C37/C36 hooks: an in-memory [`ZoneStore`] behind a public wrapper.
+//!
+//! `ZoneStore`, `SignedPacketStore` and `PublicKeyBytes` live in private modules;
+//! this wrapper exposes `insert` / `get_signed_packet` / `resolve` with plain types.
+use std::{sync::Arc, time::Duration};
+
+use hickory_server::proto::{
+    rr::{Name, RecordType},
+    serialize::binary::BinEncodable,
+};
+use iroh_dns::pkarr::SignedPacket;
+use n0_error::{Result, StdResultExt};
+
+use crate::{
+    metrics::Metrics,
+    store::{Options, PacketSource, ZoneStore},
+    util::PublicKeyBytes,
+};
+
+/// One resolved record in plain form: (owner name as text, type code, ttl, rdata in wire format).
+pub type PlainRecord = (String, u16, u32, Vec<u8>);
+
+/// Public wrapper around the crate-private `ZoneStore` (in-memory redb backend).
+#[derive(Clone)]
+pub struct Store {
+    pub(crate) inner: ZoneStore,
+}
+
+impl Store {
+    /// In-memory store.  Eviction is switched off (`eviction` = u64::MAX µs, so the
+    /// expiry threshold saturates to 0) because the harness chooses small timestamps.
+    pub fn in_memory() -> Result<Self> {
+        let options = Options {
+            eviction: Duration::from_micros(u64::MAX),
+            eviction_interval: Duration::from_secs(3600),
+            ..Options::default()
+        };
+        let inner = ZoneStore::verif_in_memory(options, Arc::new(Metrics::default()))?;
+        Ok(Self { inner })
+    }
+
+    /// `ZoneStore::insert` (what the HTTP PUT handler calls after verification).
+    pub async fn insert(&self, packet: SignedPacket) -> Result<bool> {
+        self.inner.insert(packet, PacketSource::PkarrPublish).await
+    }
+
+    /// `ZoneStore::get_signed_packet` (what the HTTP GET handler calls).
+    pub async fn get_signed_packet(&self, key: &[u8; 32]) -> Result<Option<SignedPacket>> {
+        self.inner
+            .get_signed_packet(&PublicKeyBytes::new_unchecked(*key))
+            .await
+    }
+
+    /// `ZoneStore::resolve` (what the DNS zone handler calls).  The name is given as its
+    /// labels and built with `Name::from_labels`, as `parse_name_as_pkarr_with_origin` does.
+    pub async fn resolve(
+        &self,
+        key: &[u8; 32],
+        labels: &[&[u8]],
+        rtype: u16,
+    ) -> Result<Option<Vec<PlainRecord>>> {
+        let name = Name::from_labels(labels.iter().copied()).anyerr()?;
+        let rset = self
+            .inner
+            .resolve(
+                &PublicKeyBytes::new_unchecked(*key),
+                &name,
+                RecordType::from(rtype),
+            )
+            .await?;
+        Ok(rset.map(|rset| {
+            rset.records_without_rrsigs()
+                .map(|r| {
+                    (
+                        r.name.to_string(),
+                        u16::from(r.record_type()),
+                        r.ttl,
+                        r.data.to_bytes().unwrap_or_default(),
+                    )
+                })
+                .collect()
+        }))
+    }
+}
